@@ -2,6 +2,7 @@ package config
 
 import (
 	"bytes"
+	"fmt"
 	"os"
 
 	"github.com/urfave/cli/v2"
@@ -297,6 +298,11 @@ func (s *SATranslationConfig) AsLocalToRemoteSATranslation() (SearchAttributeTra
 		inner: make(map[string]collect.StaticBiMap[string, string], len(s.NamespaceMappings)),
 	}
 	for _, mapping := range s.NamespaceMappings {
+		// A second entry for the same namespace would silently replace the first one, and pairs that collide across the
+		// two entries would go unnoticed: refuse it like any other list that is not one-to-one.
+		if _, duplicate := saTranslation.inner[mapping.NamespaceId]; duplicate {
+			return SearchAttributeTranslation{}, fmt.Errorf("search attribute translation lists namespace id %q more than once", mapping.NamespaceId)
+		}
 		var err error
 		saTranslation.inner[mapping.NamespaceId], err = collect.NewStaticBiMap(func(yield func(string, string) bool) {
 			for _, attrPair := range mapping.Mappings {
